@@ -3,6 +3,7 @@
 -/
 import PydapModel.DmrServer
 import Proofs.DmrParse
+import Proofs.Hyperslab
 namespace Pydap.Dmr
 
 theorem render_dimsSpec (ds : List (Str × Nat)) (rest : Spec) :
@@ -11,8 +12,98 @@ theorem render_dimsSpec (ds : List (Str × Nat)) (rest : Spec) :
   | nil => rfl
   | cons d ds ih => simp only [dimsSpec, renderItems, List.map_cons, List.cons_append, ih, srvDimension]
 
+theorem sval_text (v : SrvVal) : v.sval.text = v.str := by cases v <;> rfl
+
+theorem render_srvAttr (a : SrvAttr) : renderAttr (srvAttrSpec a) = srvAttrNode a := by
+  simp [renderAttr, srvAttrSpec, srvAttrNode, List.map_map, Function.comp_def, renderVal, sval_text]
+
 theorem render_srvVar (v : SrvVar) : renderVar (srvVarSpec v) = srvVarNode v := by
-  simp [renderVar, srvVarSpec, srvVarNode, renderDim, List.map_map, Function.comp_def]
+  simp [renderVar, srvVarSpec, srvVarNode, renderDim, List.map_map, Function.comp_def, render_srvAttr]
+
+/-! ### served attributes are well-formed declarations -/
+
+theorem parseIntChars_intText_all (i : Int) : parseIntChars (intText i) = some i := by
+  by_cases h : 0 ≤ i
+  · exact parseIntChars_intText i h
+  · have hlt : i < 0 := by omega
+    have hd := natDigits_allDigits i.natAbs
+    have hne := natDigits_ne_nil i.natAbs
+    have e : intText i = '-' :: natDigits i.natAbs := by simp [intText, hlt]
+    rw [e]
+    unfold parseIntChars
+    have hs : stripWs ('-' :: natDigits i.natAbs) = '-' :: natDigits i.natAbs := by
+      unfold stripWs
+      have h1 : ('-' :: natDigits i.natAbs).dropWhile isWs = '-' :: natDigits i.natAbs := by
+        rw [List.dropWhile_cons_of_neg (by decide)]
+      rw [h1]
+      have h2 : ('-' :: natDigits i.natAbs).reverse.dropWhile isWs = ('-' :: natDigits i.natAbs).reverse := by
+        apply dropWhile_head_false
+        intro x hx
+        rw [List.reverse_cons] at hx
+        cases hr : (natDigits i.natAbs).reverse with
+        | nil => exact absurd (List.reverse_eq_nil_iff.mp hr) hne
+        | cons y ys =>
+          rw [hr] at hx
+          have hxy : y = x := by simpa using hx
+          rw [← hxy]
+          exact isDigit_not_ws y (hd y (by
+            have : y ∈ (natDigits i.natAbs).reverse := by rw [hr]; simp
+            simpa using this))
+      rw [h2]; simp
+    rw [hs]
+    simp only [parseNatChars_natDigits]
+    show some (-(i.natAbs : Int)) = some i
+    congr 1
+    omega
+
+theorem intTag_atomic : ∀ (u : Bool) (lg : Fin 4), intTag u lg ∈ atomicTypes ∧ intTag u lg ∉ floatTypes := by decide
+
+theorem string_not_atomic : "String".toList ∉ atomicTypes := by decide
+theorem float_tags : ∀ d : Bool, (if d then "Float64".toList else "Float32".toList) ∈ atomicTypes ∧
+    (if d then "Float64".toList else "Float32".toList) ∈ floatTypes := by decide
+
+theorem srvAttr_type_nil (a : SrvAttr) (h : a.values = []) : (srvAttrSpec a).type = "String".toList := by
+  unfold srvAttrSpec SrvAttr.tag; rw [h]
+theorem srvAttr_type_cons (a : SrvAttr) (v0 : SrvVal) (vs : List SrvVal) (h : a.values = v0 :: vs) :
+    (srvAttrSpec a).type = v0.tag := by
+  unfold srvAttrSpec SrvAttr.tag; rw [h]
+
+theorem srvAttr_all (a : SrvAttr) : (srvAttrSpec a).all = a.values.map SrvVal.sval := by
+  unfold SAttr.all srvAttrSpec
+  simp only [Option.toList_none, List.nil_append, List.map_map]
+  rfl
+
+/-- a homogeneous served attribute is a well-formed declaration (`SAttr.ok`) -/
+theorem srvAttr_ok (a : SrvAttr) (h : a.homog) : (srvAttrSpec a).ok := by
+  have hall := srvAttr_all a
+  cases hv : a.values with
+  | nil =>
+    refine Or.inr (Or.inr ⟨by rw [srvAttr_type_nil a hv]; exact string_not_atomic, ?_⟩)
+    intro v hvm; rw [hall, hv] at hvm; cases hvm
+  | cons v0 vs =>
+    have ht := srvAttr_type_cons a v0 vs hv
+    rcases h with h | h | h
+    · obtain ⟨u, lg, i0, rfl⟩ := h v0 (by rw [hv]; simp)
+      refine Or.inr (Or.inl ⟨by rw [ht]; exact (intTag_atomic u lg).1, by rw [ht]; exact (intTag_atomic u lg).2, ?_⟩)
+      intro v hvm
+      rw [hall] at hvm
+      obtain ⟨w, hw, rfl⟩ := List.mem_map.mp hvm
+      obtain ⟨_, _, i, rfl⟩ := h w hw
+      exact ⟨_, _, rfl, parseIntChars_intText_all i⟩
+    · obtain ⟨d, t0, rfl⟩ := h v0 (by rw [hv]; simp)
+      refine Or.inl ⟨by rw [ht]; exact (float_tags d).1, by rw [ht]; exact (float_tags d).2, ?_⟩
+      intro v hvm
+      rw [hall] at hvm
+      obtain ⟨w, hw, rfl⟩ := List.mem_map.mp hvm
+      obtain ⟨_, t, rfl⟩ := h w hw
+      exact ⟨_, rfl⟩
+    · obtain ⟨s0, rfl⟩ := h v0 (by rw [hv]; simp)
+      refine Or.inr (Or.inr ⟨by rw [ht]; exact string_not_atomic, ?_⟩)
+      intro v hvm
+      rw [hall] at hvm
+      obtain ⟨w, hw, rfl⟩ := List.mem_map.mp hvm
+      obtain ⟨t, rfl⟩ := h w hw
+      exact ⟨_, rfl⟩
 
 theorem render_srvSpec (t : SrvTree) : renderItems (srvSpec t) = srvNodes t := by
   induction t with
@@ -53,7 +144,8 @@ theorem sizes_named (ds : List (Str × Int)) : (ds.map fun d => SDim.named d.1 d
 
 theorem expectVar_srv (path : List Str) (v : SrvVar) :
     expectVar path (srvVarSpec v) = srvExpect ((dap4ToNumpy (dmrTypeTag v.kind v.dtypeName)).getD []) path v := by
-  simp only [expectVar, srvExpect, srvVarSpec, refs_named, sizes_named, List.map_nil]
+  simp only [expectVar, srvExpect, srvVarSpec, refs_named, sizes_named, List.map_map, Function.comp_def, srvAttrSpec,
+    SDim.size]
 
 theorem parseVars_server (name : Str) (dims : List (Str × Nat)) (kids : SrvTree)
     (hok : (dimsSpec dims (srvSpec kids)).ok) (hres : refsResolve (dimsSpec dims (srvSpec kids)))
